@@ -88,7 +88,7 @@ CHECKS['C13'] = dict(
 
 CHECKS['C20'] = dict(
    technique='Coq proof (model total by construction; variable cycles exhaust every amount of fuel; acyclic chains evaluate with fuel k+1; limits regenerated from the source) + exhaustive small-shape correspondence under a hard wall-clock limit',
-   text='Theorems C20_variable_cycle_reported (a set of variables closed under "defined as one variable of the set" - a cycle of any length/shape - yields fuel exhaustion for every fuel), C20_chain_terminates, C20_limits (round / depth / import limits and the RecursionError handler re-read from the source). Correspondence: mixin cycles of length 1-6 in four shapes, guarded recursion at depths limit-4..limit+4, import cycles of length 1-6 in three path styles and chains around the import limit, variable cycles 1-6 and chains around the round limit (also against the Coq model), each under a 20 s limit: runaway references must be CompilationError, everything below the limits must expand completely.',
+   text='Theorems C20_variable_cycle_reported (a set of variables closed under "defined as one variable of the set" - a cycle of any length/shape - yields fuel exhaustion for every fuel), C20_chain_terminates, C20_limits (round / depth / import limits and the RecursionError handler re-read from the source). Correspondence: mixin cycles of length 1-6 in four shapes, guarded recursion at depths limit-4..limit+4, import cycles of length 1-6 in three path styles and chains around the import limit, variable cycles 1-6, branching variable cycles (each variable mentions the next 2-3 times, which multiplies the token list every round) and chains around the round limit (also against the Coq model), each under a 20 s limit: runaway references must be CompilationError, everything below the limits must expand completely.',
    note='PARTIAL: wall-clock time bounds are about the interpreter; mixin recursion and import cycles are decided by correspondence only (the mixin/import evaluators are not yet in the model).',
    design='3/C20')
 
